@@ -255,9 +255,67 @@ def monitor(ctx):
                     ctx.violation('real %s grader: non-library exception escaped with debug off' % name, case, impl=val)
 
 
+def debug_isolation(ctx):
+    """debug output appears only for graders CONFIGURED with debug=True: objects built with debug off are shared between parents with debug
+    on/off, the parents are called (including calls that raise inside the check), and afterwards every object built with debug off is called
+    directly; what counts is how the object was constructed, not what its config says at call time"""
+    from mitxgraders import StringGrader, FormulaGrader, ListGrader, SingleListGrader, NumericalGrader
+    rng = ctx.rng
+    for it in range(ctx.scale(40, 400)):
+        leafs = [('String', lambda: StringGrader(), 'cat', ['cat', 'dog', '']),
+                 ('Formula', lambda: FormulaGrader(variables=['x']), 'x+1', ['x+1', '1+x', 'x+', '((x', 'y', '1/0']),
+                 ('Numerical', lambda: NumericalGrader(), '2', ['2', '1+1', 'x', '2+', '']),
+                 ('StringMin', lambda: StringGrader(accept_any=True, min_length=3, explain_minimums='err'), 'anything', ['abcd', 'ab', ''])]
+        name, mk, ans, inputs = rng.choice(leafs)
+        child = mk()                                   # constructed with debug OFF
+        shape = rng.choice(['flat', 'nested', 'singlelist'])
+        n = rng.randint(2, 3)
+        if shape == 'flat':
+            parent_dbg = ListGrader(answers=[ans] * n, subgraders=child, ordered=rng.random() < 0.5, debug=True)
+            parent_off = ListGrader(answers=[ans] * n, subgraders=child, ordered=rng.random() < 0.5, debug=False)
+            objs_off = [('child', child, lambda: rng.choice(inputs), {'expect': ans})]
+            mkinp = lambda: [rng.choice(inputs) for _ in range(n)]
+        elif shape == 'nested':
+            inner = ListGrader(answers=[ans] * 2, subgraders=child, ordered=True)          # debug OFF
+            parent_dbg = ListGrader(answers=[[ans, ans]] * n, subgraders=inner, grouping=[g + 1 for g in range(n) for _ in range(2)], ordered=rng.random() < 0.5, debug=True)
+            parent_off = ListGrader(answers=[[ans, ans]] * n, subgraders=inner, grouping=[g + 1 for g in range(n) for _ in range(2)], ordered=True, debug=False)
+            objs_off = [('child', child, lambda: rng.choice(inputs), {'expect': ans}), ('inner', inner, lambda: [rng.choice(inputs), rng.choice(inputs)], {})]
+            mkinp = lambda: [rng.choice(inputs) for _ in range(2 * n)]
+        else:
+            parent_dbg = SingleListGrader(answers=[ans, ans], subgrader=child, debug=True)
+            parent_off = SingleListGrader(answers=[ans, ans], subgrader=child, debug=False)
+            objs_off = [('child', child, lambda: rng.choice(inputs), {'expect': ans})]
+            mkinp = lambda: ', '.join(rng.choice(inputs) for _ in range(rng.randint(1, 3)))
+        history = []
+        for step in range(rng.randint(2, 6)):
+            which = rng.random()
+            inp = mkinp()
+            if isinstance(inp, list) and rng.random() < 0.25:
+                inp = inp[:-1]                          # wrong number of inputs: the call raises inside check
+            par, pdebug = (parent_dbg, True) if which < 0.65 else (parent_off, False)
+            kind, val = GG.run_impl(lambda: par(None, inp))
+            history.append(('parent debug=%s' % pdebug, inp, 'raised ' + str(val[1]) if kind == 'err' else 'returned'))
+            if kind == 'out':
+                bad = wf(val, inp, pdebug, strict_ok=True)
+                if bad:
+                    ctx.violation('parent built with debug=%s: %s' % (pdebug, bad), {'monitor': 'debug-isolation', 'leaf': name, 'shape': shape, 'history': history}, impl=val)
+            # every object that was BUILT with debug off must stay silent when called on its own
+            for label, obj, mk_in, ekw in objs_off:
+                i2 = mk_in()
+                k2, v2 = GG.run_impl(lambda: obj(ekw.get('expect') if label == 'child' else None, i2) if label == 'child' else obj([ans, ans], i2))
+                ctx.contract_checks += 1
+                if k2 == 'out':
+                    bad = wf(v2, i2, False, strict_ok=True)
+                    if bad:
+                        ctx.violation('%s grader built with debug off, called after its parent: %s' % (label, bad),
+                                      {'monitor': 'debug-isolation', 'leaf': name, 'shape': shape, 'history': history, 'input': i2}, impl=v2)
+            ctx.case({'leaf': name, 'shape': shape, 'history': history[-1:]}, nontrivial_key=('dbgiso', it, step) if kind == 'err' else None, kind='debug-isolation:' + shape)
+
+
 def run(ctx):
     run_model_part(ctx)
     monitor(ctx)
+    debug_isolation(ctx)
 
 
 def search(ctx):
